@@ -252,6 +252,22 @@ prop("C14",
      thorough=dict(cases=3000, args={}),
      )
 
+prop("C12",
+     design_ref="DESIGN.md §5 C12",
+     technique="same runtime monitors + deterministic probe transcript under all 12 cargo feature sets, compared with default build and oracles",
+     level_text=("Runtime monitoring under every feature configuration: the monitor binary is compiled 12 times (ad-hoc "
+                 "counting off / paths / paths+models x variable lists x frontend); each build runs the monitors of C01-C07, "
+                 "C11, C13, C14, C18, C20 (and C19 with frontend) against the oracles and produces a deterministic probe "
+                 "transcript (semantics answers incl. order, restrict results as truth tables, paths, naive and memoised "
+                 "model counts, depth, dependency sets, impacts, cubes, facet counts) that is compared line by line with the "
+                 "default build's; memoised model counts are compared with the naive ones and only where documented."),
+     level_note=ORACLE_NOTE + " The CLI feature builds are exercised by the CLI checks.",
+     rule=("cases = (feature set, monitor case) and probe ADFs; non-trivial = any case counted as non-trivial by the "
+           "sub-monitor run under a feature set, or a probe ADF; distinct by the sub-monitors' hashes"),
+     quick=dict(cases=0, probe_cases=40, sub_cases=60, timeout=3000),
+     thorough=dict(cases=0, probe_cases=300, sub_cases=600, timeout=6000),
+     )
+
 NOT_BUILT = "monitor not built yet in this session (work in progress); see DESIGN.md for the planned design"
-for _pid in ["C12", "C15", "C16", "C17"]:
+for _pid in ["C15", "C16", "C17"]:
     prop(_pid, claimed=False, reason=NOT_BUILT)
